@@ -291,7 +291,15 @@ CACHED = ("h", "dhdr", "dXdr", "drdX", "dV", "dhdX", "d2hdrdr", "d2hdXdX")
 
 
 def _same_cached(it, a, b, names=CACHED):
+    # first pass: entries that are certainly different (cheap, sound) -- a region whose basis arrays are stale differs in many huge
+    # rational expressions, and proving the *remaining* entries equal is expensive and beside the point
     bad = []
+    for nm in names:
+        x, y = npmodel.to_obj(np.asarray(it.getattr(a, nm))), npmodel.to_obj(np.asarray(it.getattr(b, nm)))
+        if x.shape != y.shape or any(ring.quick_nonzero(P(u) - P(v)) for u, v in zip(x.reshape(-1), y.reshape(-1))):
+            bad.append(nm)
+    if bad:
+        return bad
     for nm in names:
         x, y = npmodel.to_obj(np.asarray(it.getattr(a, nm))), npmodel.to_obj(np.asarray(it.getattr(b, nm)))
         if x.shape != y.shape or any(not is_zero(P(u) - P(v)) for u, v in zip(x.reshape(-1), y.reshape(-1))):
